@@ -177,7 +177,10 @@ def step (s : St) : Ev → Option St
         -- inside `pika::stop()`: `thread_manager::wait` runs only after `wait_finalize`
         if s.spc = .waitedFin then
           if v ≤ self then
-            if s.ph = .running then
+            -- `pika::stop()` needs an initialised runtime only: the drain check may also succeed on a
+            -- SUSPENDED runtime (follow-up C05h); the workers then still sleep and are woken by
+            -- `stop_locked`'s `resume_internal` after `runtime::stopping`
+            if s.ph = .running ∨ s.ph = .suspended then
               some { s with spc := .drained, ph := .stopping, lastRet := upd s.lastRet a true }
             else none
           else some { s with lastRet := upd s.lastRet a false }
@@ -212,8 +215,10 @@ def step (s : St) : Ev → Option St
       some { s with fin := true }
     else none
   | .stopEnter a =>
-    if a < s.na ∧ s.stopper = none ∧ s.spc = .out ∧ s.ph = .running ∧ s.cur a = none ∧
-        s.worker a = false then
+    -- documented precondition: the runtime is initialised and the caller is not a pika task; the
+    -- runtime may be running or suspended
+    if a < s.na ∧ s.stopper = none ∧ s.spc = .out ∧ (s.ph = .running ∨ s.ph = .suspended) ∧
+        s.cur a = none ∧ s.worker a = false then
       some { s with stopper := some a, spc := .entered }
     else none
   | .waitFin a =>
@@ -223,7 +228,9 @@ def step (s : St) : Ev → Option St
     if s.stopper = some a ∧ s.spc = .drained ∧ r = s.result then some { s with spc := .waited }
     else none
   | .stopExit a r =>
-    if s.stopper = some a ∧ s.spc = .halted ∧ r = s.result then
+    -- `runtime::stop` has joined every worker thread (`remove_processing_unit_internal`): a worker
+    -- that was asleep when `stop()` was entered has woken (`pu.wake`) before
+    if s.stopper = some a ∧ s.spc = .halted ∧ r = s.result ∧ s.nsleep = 0 then
       some { s with ph := .none, stopper := none, spc := .out, fin := false,
                     worker := fun _ => false, asleep := fun _ => false, nworkers := 0, nsleep := 0 }
     else none
@@ -246,8 +253,10 @@ def step (s : St) : Ev → Option St
       some { s with asleep := upd s.asleep a true, nsleep := s.nsleep + 1 }
     else none
   | .wake a =>
-    -- the condition variable is notified only by `resume_internal` (runtime::resume, pool stop)
-    if a < s.na ∧ s.ph = .resuming ∧ s.asleep a = true then
+    -- the condition variable is notified only by `resume_internal`: from `runtime::resume`, and from
+    -- the pool's `stop_locked` ("wake up if suspended"), which runs after `runtime::stopping` stored
+    -- `stopped` (stop() entered on a suspended runtime)
+    if a < s.na ∧ (s.ph = .resuming ∨ (s.ph = .stopping ∧ s.spc = .halted)) ∧ s.asleep a = true then
       some { s with asleep := upd s.asleep a false, nsleep := s.nsleep - 1 }
     else none
   | .waitEnter a =>
